@@ -326,14 +326,17 @@ fn obs_unary(s: &JsString, a: Args) -> Obs {
 }
 
 fn e_surr(it: impl Iterator<Item = Result<String, u16>>) -> String {
+    // count, then per part: 0,len,scalars.. (a run of scalar values) | 1,unit (an unpaired surrogate)  -- enc_surr of Eval_C11.v
+    let mut n = 0usize;
     let mut out = String::new();
     for part in it {
+        n += 1;
         match part {
-            Ok(st) => { out.push_str("s,"); out.push_str(&e_u32s(&scalars(&st))); out.push(';'); }
-            Err(u) => { out.push_str(&format!("u,{u};")); }
+            Ok(st) => { out.push_str(",0,"); out.push_str(&e_u32s(&scalars(&st))); }
+            Err(u) => { out.push_str(&format!(",1,{u}")); }
         }
     }
-    out
+    format!("{n}{out}")
 }
 
 fn obs_binary(s: &JsString, t: &JsString, su: &[u16], tu: &[u16], tstr: Option<&str>, a: Args) -> Obs {
@@ -457,17 +460,20 @@ fn oracle_unary(u: &[u16], a: Args) -> Obs {
     o.push(("esc", e_u32s(&o_esc(u))));
     // to_std_string_with_surrogates: maximal runs of scalar values, unpaired surrogates on their own
     let mut surr = String::new();
+    let mut nparts = 0usize;
     let mut runv: Vec<u32> = Vec::new();
     for c in &cps {
         match c {
             CodePoint::Unicode(c) => runv.push(*c as u32),
             CodePoint::UnpairedSurrogate(x) => {
-                if !runv.is_empty() { surr.push_str("s,"); surr.push_str(&e_u32s(&runv)); surr.push(';'); runv.clear(); }
-                surr.push_str(&format!("u,{x};"));
+                if !runv.is_empty() { nparts += 1; surr.push_str(",0,"); surr.push_str(&e_u32s(&runv)); runv.clear(); }
+                nparts += 1;
+                surr.push_str(&format!(",1,{x}"));
             }
         }
     }
-    if !runv.is_empty() { surr.push_str("s,"); surr.push_str(&e_u32s(&runv)); surr.push(';'); }
+    if !runv.is_empty() { nparts += 1; surr.push_str(",0,"); surr.push_str(&e_u32s(&runv)); }
+    let surr = format!("{nparts}{surr}");
     o.push(("surr", surr));
     o.push(("mapid", e_units(u)));
     o
